@@ -13,8 +13,9 @@ CONSTANTS
   Chunkings = {"all", "msg", "bytes", "split"}
   CutChunkings = @@CUTCH@@
   WithUdp = TRUE
+  PlainJoin = {}
 INIT Init
 NEXT Next
-INVARIANTS TypeOK Conforms NoDev NoReadPast ExpectFixed UdpRoundTrip DoneIsFinal
+INVARIANTS TypeOK Conforms NoDev NoReadPast ExpectFixed UdpRoundTrip DoneIsFinal HostPort
 PROPERTIES StepsAdvance
 CHECK_DEADLOCK TRUE
